@@ -46,13 +46,24 @@ type Module struct {
 	Callees   []*Callee         `json:"callees"`
 	ErrorCtor []string          `json:"error_constructors"` // calls that build a non-nil error
 	// generic modules (C19: float64 is a type parameter with a class of operations)
-	TypeParams   string                       `json:"type_params"`   // binders of every definition, e.g. "{α : Type} [C19.Num α]"
-	StructParams string                       `json:"struct_params"` // binders of every generated structure, e.g. "(α : Type)"
-	TypeArgs     string                       `json:"type_args"`     // arguments of a generated structure where it is used, e.g. "α"
+	TypeParams   string                       `json:"type_params"`     // binders of every definition, e.g. "{α : Type} [C19.Num α]"
+	StructParams string                       `json:"struct_params"`   // binders of every generated structure, e.g. "(α : Type)"
+	TypeArgs     string                       `json:"type_args"`       // arguments of a generated structure where it is used, e.g. "α"
 	ParamArgs    string                       `json:"type_param_args"` // explicit arguments for type_params in calls between definitions, e.g. "H"
-	Structs      []*StructCfg                 `json:"structs"`       // struct types of the repo that become Lean structures
-	Ops          map[string]map[string]string `json:"ops"`           // Go type -> templates for its operators, literals, conversions
-	Ignore    []string          `json:"ignore_calls"`       // statement calls without meaning for the model (logging)
+	Structs      []*StructCfg                 `json:"structs"`         // struct types of the repo that become Lean structures
+	Ops          map[string]map[string]string `json:"ops"`             // Go type -> templates for its operators, literals, conversions
+	Ignore       []string                     `json:"ignore_calls"`    // statement calls without meaning for the model (logging)
+	// pointer / interface types that are read as an option: Go type -> template of the test `{0} == nil`, and the
+	// Lean term of their nil value
+	NilTests map[string]string `json:"nil_tests"`
+	NilTerms map[string]string `json:"nil_terms"`
+	// package-level constants that are emitted even when no translated function refers to them
+	Consts []*ConstCfg `json:"consts"`
+}
+
+type ConstCfg struct {
+	Pkg string `json:"pkg"`
+	Go  string `json:"go"`
 }
 
 type StructCfg struct {
@@ -60,6 +71,24 @@ type StructCfg struct {
 	Go   string   `json:"go"`
 	Lean string   `json:"lean"`
 	Skip []string `json:"skip"` // fields left out (locks, …); embedded fields are always left out
+	Only []string `json:"only"` // if given: the fields that are kept, every other field is left out
+}
+
+func (sc *StructCfg) leftOut(name string) bool {
+	for _, sk := range sc.Skip {
+		if sk == name {
+			return true
+		}
+	}
+	if len(sc.Only) > 0 {
+		for _, k := range sc.Only {
+			if k == name {
+				return false
+			}
+		}
+		return true
+	}
+	return false
 }
 
 type FuncCfg struct {
@@ -284,6 +313,12 @@ func (t *translator) typeOf(p *pkgInfo, f *ast.File, e ast.Expr) string {
 				return path + "." + x.Sel.Name
 			}
 		}
+	case *ast.MapType:
+		return "map[" + t.typeOf(p, f, x.Key) + "]" + t.typeOf(p, f, x.Value)
+	case *ast.StructType:
+		if x.Fields == nil || len(x.Fields.List) == 0 {
+			return "struct{}"
+		}
 	}
 	failf("type outside the subset")
 	return ""
@@ -299,10 +334,30 @@ func (t *translator) repoDir(importPath string) (string, bool) {
 	return "", false
 }
 
+// mapParts: key and element type of "map[K]V"
+func mapParts(tp string) (string, string, bool) {
+	if !strings.HasPrefix(tp, "map[") {
+		return "", "", false
+	}
+	depth := 0
+	for i := 3; i < len(tp); i++ {
+		switch tp[i] {
+		case '[':
+			depth++
+		case ']':
+			depth--
+			if depth == 0 {
+				return tp[4:i], tp[i+1:], true
+			}
+		}
+	}
+	return "", "", false
+}
+
 // under resolves named types of the repo to their underlying type
 func (t *translator) under(tp string) string {
 	for i := 0; i < 10; i++ {
-		if basic[tp] || strings.HasPrefix(tp, "[]") || strings.HasPrefix(tp, "*") || tp == "" || tp == "untyped-int" {
+		if basic[tp] || strings.HasPrefix(tp, "[]") || strings.HasPrefix(tp, "*") || strings.HasPrefix(tp, "map[") || tp == "struct{}" || tp == "" || tp == "untyped-int" {
 			return tp
 		}
 		k := strings.LastIndex(tp, ".")
@@ -314,8 +369,11 @@ func (t *translator) under(tp string) string {
 		if !ok {
 			return tp
 		}
-		if _, isStruct := te.(*ast.StructType); isStruct {
+		if st, isStruct := te.(*ast.StructType); isStruct && st.Fields != nil && len(st.Fields.List) > 0 {
 			return tp
+		}
+		if _, isArr := te.(*ast.ArrayType); isArr && te.(*ast.ArrayType).Len != nil {
+			return tp // a named array type: opaque (it needs a configured Lean type)
 		}
 		tp = t.typeOf(p, p.fileOf(te), te)
 	}
@@ -346,6 +404,12 @@ func (t *translator) leanType(tp string) string {
 	u := t.under(tp)
 	if strings.HasPrefix(u, "[]") {
 		return "List (" + t.leanType(u[2:]) + ")"
+	}
+	if k, v, ok := mapParts(u); ok {
+		return "(Gen.Rt.Map (" + t.leanType(k) + ") (" + t.leanType(v) + "))"
+	}
+	if u == "struct{}" {
+		return "Unit"
 	}
 	if u == "uint8" {
 		u = "byte"
@@ -520,9 +584,9 @@ func (e env) with(o *ast.Object, b binding) env {
 
 type cval struct {
 	isFloat bool
-	isStr bool
-	s     string
-	i     *big.Int
+	isStr   bool
+	s       string
+	i       *big.Int
 }
 
 type val struct {
@@ -856,6 +920,11 @@ func (ft *ftrans) expr(x ast.Expr, e env, pre *[]prelude) val {
 		xs := ft.expr(c.X, e, pre)
 		i := ft.expr(c.Index, e, pre)
 		u := ft.t.under(xs.t)
+		if kt, vt, ok := mapParts(u); ok {
+			// m[k] as a value: the element, or the zero value of the element type (never a panic)
+			i = ft.coerce(kt, i)
+			return val{s: "(Gen.Rt.Map.get " + atom(xs.s) + " " + atom(i.s) + " " + atom(ft.zero(vt)) + ")", t: vt}
+		}
 		var et string
 		switch {
 		case u == "string":
@@ -983,12 +1052,8 @@ func (ft *ftrans) selector(c *ast.SelectorExpr, e env, pre *[]prelude) val {
 			for _, fl := range st.Fields.List {
 				for _, nm := range fl.Names {
 					if nm.Name == c.Sel.Name {
-						if sc := ft.t.structOf(tp); sc != nil {
-							for _, sk := range sc.Skip {
-								if sk == nm.Name {
-									failf("field %s of %s is left out of the translated structure", nm.Name, tp)
-								}
-							}
+						if sc := ft.t.structOf(tp); sc != nil && sc.leftOut(nm.Name) {
+							failf("field %s of %s is left out of the translated structure", nm.Name, tp)
 						}
 						anyFile := p.fileOf(st)
 						return val{s: "(" + atom(x.s) + "." + nm.Name + ")", t: ft.t.typeOf(p, anyFile, fl.Type)}
@@ -1048,6 +1113,18 @@ func (ft *ftrans) binary(c *ast.BinaryExpr, e env, pre *[]prelude) val {
 				}
 				return val{s: o.s, t: "bool"}
 			}
+			isNil := ""
+			if tpl, ok := ft.t.mod.NilTests[o.t]; ok {
+				isNil = "(" + subst(tpl, "", []string{atom(o.s)}) + ")"
+			} else if strings.HasPrefix(ft.t.under(o.t), "map[") {
+				isNil = "(Gen.Rt.Map.isNil " + atom(o.s) + ")"
+			}
+			if isNil != "" {
+				if c.Op == token.EQL {
+					return val{s: isNil, t: "bool"}
+				}
+				return val{s: "(!" + isNil + ")", t: "bool"}
+			}
 			failf("comparison with nil of a value of type %q is outside the subset", o.t)
 		}
 		ft.comparable(a, b)
@@ -1062,6 +1139,18 @@ func (ft *ftrans) binary(c *ast.BinaryExpr, e env, pre *[]prelude) val {
 		ft.numeric(a, b)
 		op := map[token.Token]string{token.LSS: "<", token.LEQ: "≤", token.GTR: ">", token.GEQ: "≥"}[c.Op]
 		return val{s: "(decide (" + atom(a.s) + " " + op + " " + atom(b.s) + "))", t: "bool"}
+	case token.AND, token.OR:
+		a := ft.expr(c.X, e, pre)
+		b := ft.expr(c.Y, e, pre)
+		tp := ft.numeric(a, b)
+		if uintBits(tp) == 0 {
+			failf("bit operator %s on values of type %q is outside the subset (only unsigned integers)", c.Op, tp)
+		}
+		fn := "Nat.land"
+		if c.Op == token.OR {
+			fn = "Nat.lor"
+		}
+		return val{s: "(" + fn + " " + atom(a.s) + " " + atom(b.s) + ")", t: pick(a.t, b.t)}
 	case token.ADD, token.SUB:
 		a := ft.expr(c.X, e, pre)
 		b := ft.expr(c.Y, e, pre)
@@ -1575,6 +1664,33 @@ func (ft *ftrans) convert(to string, v val) val {
 	return val{}
 }
 
+// zero: the Lean term of the zero value of a Go type
+func (ft *ftrans) zero(tp string) string {
+	if z, ok := ft.t.mod.NilTerms[tp]; ok {
+		return z
+	}
+	u := ft.t.under(tp)
+	switch {
+	case u == "string" || strings.HasPrefix(u, "[]"):
+		return "[]"
+	case u == "int" || uintBits(u) > 0:
+		return "0"
+	case u == "bool":
+		return "false"
+	case strings.HasPrefix(u, "map["):
+		return "none"
+	case u == "struct{}":
+		return "()"
+	}
+	if ops, ok := ft.t.mod.Ops[u]; ok {
+		if tpl, ok := ops["lit"]; ok {
+			return "(" + subst(tpl, "", []string{"0"}) + ")"
+		}
+	}
+	failf("zero value of type %q is outside the subset", tp)
+	return ""
+}
+
 // ---- statements
 
 type cont func(e env) node
@@ -1623,6 +1739,14 @@ func (ft *ftrans) block(stmts []ast.Stmt, e env, k cont) node {
 	case *ast.RangeStmt:
 		return ft.rng(s, e, rest)
 	case *ast.ExprStmt:
+		if dc := deleteCall(s); dc != nil {
+			// delete(x.f, k) on a map field of a translated struct variable (a no-op on the nil map)
+			b, field, m := ft.mapField(dc.Args[0], e)
+			var pre []prelude
+			kt, _, _ := mapParts(ft.t.under(m.t))
+			key := ft.coerce(kt, ft.expr(dc.Args[1], e, &pre))
+			return ft.wrap(pre, nLet{name: b.lean, val: "{ " + b.lean + " with " + field + " := Gen.Rt.Map.erase " + atom(m.s) + " " + atom(key.s) + " }", body: rest(e)})
+		}
 		if ce, ok := s.X.(*ast.CallExpr); ok {
 			if ft.ignored(ce) {
 				return rest(e)
@@ -1862,8 +1986,39 @@ func (ft *ftrans) assignable(to string, v val) {
 	}
 }
 
+// mapField: `x.f` where x is a variable of a translated struct type and f a field of map type
+func (ft *ftrans) mapField(x ast.Expr, e env) (binding, string, val) {
+	sel, ok := unparen(x).(*ast.SelectorExpr)
+	if !ok {
+		failf("update of a map that is not a field of a translated struct variable is outside the subset")
+	}
+	id, ok := sel.X.(*ast.Ident)
+	if !ok || id.Obj == nil {
+		failf("update of a map that is not a field of a translated struct variable is outside the subset")
+	}
+	b, ok := e[id.Obj]
+	if !ok || b.kind != bVar || ft.t.structOf(b.typ) == nil {
+		failf("update of a map field of %s, which is not a variable of a translated struct type", id.Name)
+	}
+	var pre []prelude
+	m := ft.expr(sel, e, &pre)
+	if _, _, isMap := mapParts(ft.t.under(m.t)); !isMap || len(pre) > 0 {
+		failf("%s.%s is not a map field", id.Name, sel.Sel.Name)
+	}
+	return b, sel.Sel.Name, m
+}
+
 // coerce: v where a value of type `to` is needed (an untyped constant becomes a literal of that type)
 func (ft *ftrans) coerce(to string, v val) val {
+	if v.t == "nil" {
+		if z, ok := ft.t.mod.NilTerms[to]; ok {
+			return val{s: z, t: to}
+		}
+		if strings.HasPrefix(ft.t.under(to), "map[") {
+			return val{s: "none", t: to}
+		}
+		failf("nil where a value of type %q is needed is outside the subset", to)
+	}
 	ut := ft.t.under(to)
 	if ops, ok := ft.t.mod.Ops[ut]; ok {
 		if ft.t.under(v.t) == "untyped-int" || ft.t.under(v.t) == "untyped-float" {
@@ -1917,8 +2072,25 @@ func lhsBase(x ast.Expr) (*ast.Ident, string) {
 		if id, ok := c.X.(*ast.Ident); ok {
 			return id, c.Sel.Name
 		}
+	case *ast.IndexExpr: // x.f[k] = …: the struct variable x
+		return lhsBase(c.X)
 	}
 	return nil, ""
+}
+
+// deleteCall: `delete(m, k)` (the builtin)
+func deleteCall(n ast.Node) *ast.CallExpr {
+	if es, ok := n.(*ast.ExprStmt); ok {
+		n = es.X
+	}
+	ce, ok := n.(*ast.CallExpr)
+	if !ok || len(ce.Args) != 2 {
+		return nil
+	}
+	if id, ok := ce.Fun.(*ast.Ident); ok && id.Name == "delete" && id.Obj == nil {
+		return ce
+	}
+	return nil
 }
 
 // assignedVars: the variables bound in e that the statements assign to (fields included), in source order
@@ -1950,6 +2122,10 @@ func assignedVars(n ast.Node, e env) []*ast.Object {
 			}
 		case *ast.IncDecStmt:
 			add(c.X)
+		case *ast.CallExpr:
+			if dc := deleteCall(c); dc != nil {
+				add(dc.Args[0])
+			}
 		}
 		return true
 	})
@@ -2033,6 +2209,52 @@ func (ft *ftrans) assign(s *ast.AssignStmt, e env, k cont) node {
 	}
 	if len(s.Rhs) != 1 {
 		failf("assignment with %d values for %d variables is outside the subset", len(s.Rhs), len(s.Lhs))
+	}
+	// v, ok := m[k]
+	if ix, isIx := unparen(s.Rhs[0]).(*ast.IndexExpr); isIx && len(s.Lhs) == 2 {
+		m := ft.expr(ix.X, e, &pre)
+		kt, vt, isMap := mapParts(ft.t.under(m.t))
+		if !isMap {
+			failf("two variables for an index expression that is not a map read")
+		}
+		if s.Tok != token.DEFINE {
+			failf("v, ok = m[k] without := is outside the subset")
+		}
+		key := ft.coerce(kt, ft.expr(ix.Index, e, &pre))
+		res := ft.tmp()
+		e2 := e
+		var lets []nLet
+		if vo := ft.lhsObj(s.Lhs[0]); vo != nil {
+			name := ft.nameOf(vo)
+			lets = append(lets, nLet{name: name, typ: ft.t.leanType(vt), val: "(" + res + ".getD " + atom(ft.zero(vt)) + ")"})
+			e2 = e2.with(vo, binding{kind: bVar, lean: name, typ: vt})
+		}
+		if oo := ft.lhsObj(s.Lhs[1]); oo != nil {
+			name := ft.nameOf(oo)
+			lets = append(lets, nLet{name: name, typ: "Bool", val: "(" + res + ".isSome)"})
+			e2 = e2.with(oo, binding{kind: bVar, lean: name, typ: "bool"})
+		}
+		n := k(e2)
+		for i := len(lets) - 1; i >= 0; i-- {
+			l := lets[i]
+			l.body = n
+			n = l
+		}
+		return ft.wrap(pre, nLet{name: res, val: "Gen.Rt.Map.find " + atom(m.s) + " " + atom(key.s), body: n})
+	}
+	// x.f[k] = v on a map field: the struct variable is rebound; writing to the nil map panics
+	if ix, ok := s.Lhs[0].(*ast.IndexExpr); ok && len(s.Lhs) == 1 && s.Tok == token.ASSIGN {
+		b, field, m := ft.mapField(ix.X, e)
+		kt, vt, _ := mapParts(ft.t.under(m.t))
+		key := ft.coerce(kt, ft.expr(ix.Index, e, &pre))
+		v := ft.expr(s.Rhs[0], e, &pre)
+		if v.opt != nil {
+			failf("assignment of a multi-valued call to a map entry")
+		}
+		v = ft.coerce(vt, v)
+		n := ft.tmp()
+		pre = append(pre, prelude{n, "Gen.Rt.Map.insert? " + atom(m.s) + " " + atom(key.s) + " " + atom(v.s)})
+		return ft.wrap(pre, nLet{name: b.lean, val: "{ " + b.lean + " with " + field + " := " + n + " }", body: k(e)})
 	}
 	// x.f = v: the struct variable is rebound to its updated value
 	if sel, ok := s.Lhs[0].(*ast.SelectorExpr); ok && len(s.Lhs) == 1 && s.Tok == token.ASSIGN {
@@ -2183,17 +2405,7 @@ func (ft *ftrans) decl(s *ast.DeclStmt, e env, k cont) node {
 			}
 		} else {
 			// zero value
-			u := ft.t.under(tp)
-			switch {
-			case u == "string" || strings.HasPrefix(u, "[]"):
-				v = val{s: "[]", t: tp}
-			case u == "int" || uintBits(u) > 0:
-				v = val{s: "0", t: tp}
-			case u == "bool":
-				v = val{s: "false", t: tp}
-			default:
-				failf("zero value of type %q is outside the subset", tp)
-			}
+			v = val{s: ft.zero(tp), t: tp}
 		}
 		return ft.wrap(pre, nLet{name: name, typ: ft.t.leanType(tp), val: v.s,
 			body: step(i+1, e.with(it.o, binding{kind: bVar, lean: name, typ: tp}))})
@@ -2491,22 +2703,72 @@ func (ft *ftrans) rng(s *ast.RangeStmt, e env, k cont) node {
 	if s.Tok != token.DEFINE {
 		failf("range without := is outside the subset")
 	}
-	if s.Key != nil {
-		if id, ok := s.Key.(*ast.Ident); !ok || id.Name != "_" {
-			failf("range with an index variable is outside the subset")
-		}
-	}
 	var pre []prelude
 	xs := ft.expr(s.X, e, &pre)
 	u := ft.t.under(xs.t)
-	if !strings.HasPrefix(u, "[]") {
-		failf("range over a value of type %q is outside the subset", xs.t)
+	blank := func(x ast.Expr) bool {
+		if x == nil {
+			return true
+		}
+		id, ok := x.(*ast.Ident)
+		return ok && id.Name == "_"
 	}
-	et := u[2:]
+	var et string
+	loopVar := s.Value
+	if kt, vt, isMap := mapParts(u); isMap {
+		// the iteration order of a map is unspecified: only loops whose result cannot depend on it are translated —
+		// nothing declared outside is assigned, and every return in the body returns the same constants
+		if len(assignedVars(s.Body, e)) > 0 {
+			failf("a loop over a map that updates variables declared outside it is outside the subset (iteration order)")
+		}
+		first := ""
+		ast.Inspect(s.Body, func(n ast.Node) bool {
+			rs, ok := n.(*ast.ReturnStmt)
+			if !ok {
+				return true
+			}
+			var parts []string
+			for _, r := range rs.Results {
+				switch c := unparen(r).(type) {
+				case *ast.BasicLit:
+					parts = append(parts, c.Value)
+				case *ast.Ident:
+					if c.Obj != nil || (c.Name != "true" && c.Name != "false" && c.Name != "nil") {
+						failf("a loop over a map that returns something other than constants is outside the subset (iteration order)")
+					}
+					parts = append(parts, c.Name)
+				default:
+					failf("a loop over a map that returns something other than constants is outside the subset (iteration order)")
+				}
+			}
+			txt := "return " + strings.Join(parts, ",")
+			if first != "" && first != txt {
+				failf("a loop over a map with different returns is outside the subset (iteration order)")
+			}
+			first = txt
+			return true
+		})
+		switch {
+		case !blank(s.Key) && !blank(s.Value):
+			failf("range over a map with both key and value is outside the subset")
+		case !blank(s.Key):
+			xs, et, loopVar = val{s: "(Gen.Rt.Map.keys " + atom(xs.s) + ")"}, kt, s.Key
+		default:
+			xs, et = val{s: "(Gen.Rt.Map.vals " + atom(xs.s) + ")"}, vt
+		}
+	} else {
+		if !blank(s.Key) {
+			failf("range with an index variable is outside the subset")
+		}
+		if !strings.HasPrefix(u, "[]") {
+			failf("range over a value of type %q is outside the subset", xs.t)
+		}
+		et = u[2:]
+	}
 	e2 := e
 	vname := "_"
-	if s.Value != nil {
-		if o := ft.lhsObj(s.Value); o != nil {
+	if !blank(loopVar) {
+		if o := ft.lhsObj(loopVar); o != nil {
 			vname = ft.nameOf(o)
 			e2 = e.with(o, binding{kind: bVar, lean: vname, typ: et})
 		}
@@ -2616,6 +2878,10 @@ func (t *translator) analyse(g *fn) {
 				}
 			case *ast.IncDecStmt:
 				check(c.X)
+			case *ast.CallExpr:
+				if dc := deleteCall(c); dc != nil {
+					check(dc.Args[0])
+				}
 			}
 			return true
 		})
@@ -2806,13 +3072,7 @@ func (t *translator) emitStruct(sc *StructCfg) (txt string, errmsg string) {
 			continue
 		}
 		for _, nm := range fl.Names {
-			skip := false
-			for _, sk := range sc.Skip {
-				if sk == nm.Name {
-					skip = true
-				}
-			}
-			if skip {
+			if sc.leftOut(nm.Name) {
 				left = append(left, nm.Name)
 				continue
 			}
@@ -2881,6 +3141,26 @@ func run(repo, leanDir, cfgPath string) (failed []string, err error) {
 			t.translate(g)
 		}
 		doneOrder := t.done
+		var constErrs []string
+		for _, cc := range m.Consts {
+			func() {
+				defer func() {
+					if r := recover(); r != nil {
+						f, ok := r.(failure)
+						if !ok {
+							f = failure{fmt.Sprintf("internal error of the translator: %v", r)}
+						}
+						constErrs = append(constErrs, fmt.Sprintf("%s const %s (%s)", pkgLabel(cc.Pkg), cc.Go, f.msg))
+					}
+				}()
+				p := t.loadPkg(cc.Pkg)
+				cd, ok := p.consts[cc.Go]
+				if !ok {
+					failf("constant not found")
+				}
+				(&ftrans{t: t, f: &fn{pkg: p}}).constRef(p, cd)
+			}()
+		}
 		var b strings.Builder
 		for _, im := range m.Imports {
 			b.WriteString("import " + im + "\n")
@@ -2897,6 +3177,10 @@ func run(repo, leanDir, cfgPath string) (failed []string, err error) {
 		sort.Strings(cn)
 		for _, n := range cn {
 			b.WriteString(t.consts[n] + "\n")
+		}
+		for _, ce := range constErrs {
+			fmt.Fprintf(&b, "-- NOT TRANSLATED: %s\n\n", ce)
+			failed = append(failed, m.Out+": "+ce)
 		}
 		for _, sc := range m.Structs {
 			txt, err := t.emitStruct(sc)
@@ -2927,4 +3211,3 @@ func run(repo, leanDir, cfgPath string) (failed []string, err error) {
 	}
 	return failed, nil
 }
-
